@@ -134,7 +134,85 @@ pub fn state_invariant<F: Fl>(property: &str, w: &World<F>, obs: &WorldObs) -> R
     }
 }
 
+/// Long structured histories: a hub with up to `k` outgoing / incoming /
+/// parallel / self-loop edges, then every operation of the alphabet. Reaches
+/// list lengths (17+, 33+) far beyond the exhaustively explored state space,
+/// e.g. for thresholds of inline buffers.
+pub fn long_family<F: Fl>(job: &Job, kmax: usize, out: &mut Out) {
+    let prop = job.property.as_str();
+    let n = 3usize;
+    let alpha = alphabet(n, 1);
+    let families: [(&str, fn(usize) -> Op); 5] = [
+        ("hub-out", |i| Op::Connect(0, 1 + (i % 2) as K, 1 + (i % 3) as E)),
+        ("hub-in", |i| Op::Connect(1 + (i % 2) as K, 0, 1 + (i % 3) as E)),
+        ("parallel", |i| Op::Connect(0, 1, 1 + (i % 3) as E)),
+        ("self-loops", |i| Op::Connect(0, 0, 1 + (i % 3) as E)),
+        ("mixed", |i| match i % 4 {
+            0 => Op::Connect(0, 1, 1 + (i % 3) as E),
+            1 => Op::Connect(1, 0, 1 + (i % 3) as E),
+            2 => Op::Connect(0, 0, 1 + (i % 3) as E),
+            _ => Op::Connect(2, 0, 1 + (i % 3) as E),
+        }),
+    ];
+    for (fname, gen) in families.iter() {
+        for k in 0..=kmax {
+            let h: Vec<Op> = (0..k).map(|i| gen(i)).collect();
+            crate::progress::set_case(|| mk_case(F::NAME, n, &h, None).to_string());
+            let w = match World::<F>::build(n, &h) {
+                Ok(w) => w,
+                Err((i, f)) => {
+                    out.report(Violation { property: prop.into(), engine: "seqx".into(), flavour: F::NAME.into(), class: format!("connect/{}/long-{}", f.kind(), fname), what: format!("connect number {} of a long history failed: {}", i, f.msg()), case: mk_case(F::NAME, n, &h, None), order: k as u64 });
+                    break;
+                }
+            };
+            let pre = match w.observe() {
+                Ok(o) => o,
+                Err(f) => {
+                    out.report(Violation { property: prop.into(), engine: "seqx".into(), flavour: F::NAME.into(), class: format!("unobservable/{}/long-{}", f.kind(), fname), what: f.msg().to_string(), case: mk_case(F::NAME, n, &h, None), order: k as u64 });
+                    break;
+                }
+            };
+            out.stats.inc("states");
+            out.stats.max("max_edges_at_one_node", pre.iter().map(|o| o.out.len() + o.inn.len()).max().unwrap_or(0) as u64);
+            if prop != "C03" {
+                if let Err((code, detail)) = state_invariant(prop, &w, &pre) {
+                    out.report(Violation { property: prop.into(), engine: "seqx".into(), flavour: F::NAME.into(), class: format!("state/{}/long-{}", code, fname), what: detail, case: mk_case(F::NAME, n, &h, None), order: k as u64 });
+                    continue;
+                }
+            }
+            for op in &alpha {
+                crate::progress::tick();
+                let w = World::<F>::build(n, &h).ok().expect("rebuild");
+                let ret = w.apply(op);
+                out.stats.inc("transitions");
+                out.stats.inc("evaluations");
+                if k >= 17 {
+                    out.stats.inc("nontrivial");
+                }
+                let post = if ret.is_fail() { None } else { w.observe().ok() };
+                let order = (k as u64 + 1) * 100;
+                if prop == "C03" {
+                    let chk = match &post {
+                        Some(post) => check_contract(F::DIRECTED, &pre, op, &ret, post),
+                        None => check_contract(F::DIRECTED, &pre, op, &ret, &pre),
+                    };
+                    if let Err((code, detail)) = chk {
+                        out.report(Violation { property: prop.into(), engine: "seqx".into(), flavour: F::NAME.into(), class: format!("{}/long-{}", code, fname), what: format!("{} after {} edges of family {}: {}", op.show(), k, fname, detail), case: mk_case(F::NAME, n, &h, Some(op)), order });
+                    }
+                } else if let Some(post) = &post {
+                    if let Err((code, detail)) = state_invariant(prop, &w, post) {
+                        out.report(Violation { property: prop.into(), engine: "seqx".into(), flavour: F::NAME.into(), class: format!("state/{}/after-{}/long-{}", code, op.name(), fname), what: format!("{} after {} edges of family {}: {}", op.show(), k, fname, detail), case: mk_case(F::NAME, n, &h, Some(op)), order });
+                    }
+                }
+            }
+        }
+    }
+}
+
 pub fn explore<F: Fl>(job: &Job, out: &mut Out) {
+    if let Some(k) = job.params.get("long").and_then(|v| v.as_u64()) {
+        return long_family::<F>(job, k as usize, out);
+    }
     let p: SeqParams = serde_json::from_value(job.params.clone()).expect("seq params");
     let prop = job.property.as_str();
     let directed = F::DIRECTED;
